@@ -288,7 +288,7 @@ def run(tier: str, replay=None) -> int:
         chk.add_tlc(tot)
         _one(chk, case, exp[0], replay["replay"].get("method", "TrustRegionReflection"))
         return chk.finish()
-    n = 1200 if tier == "quick" else 20000
+    n = 1200 if tier == "quick" else 8000
     cases = [gen_case(rng) for _ in range(n)]
     exp, tot = tlc_expected(cases, shards=8 if tier == "quick" else 14)
     chk.add_tlc(tot, "ObjectiveCases")
